@@ -37,8 +37,6 @@ var schemaIrregular = map[string]string{
 	"Types_V2Transaction":            "version byte + field bitmap",
 	"Types_V2TransactionSemantics":   "semantic (ID/sighash) encoding: loops and normalisation",
 	"Types_V2TransactionsMultiproof": "multiproof compression",
-	"Consensus_ElementAccumulator":   "only occupied tree slots are transmitted",
-	"Consensus_State":                "only numTimestamps() timestamps are transmitted",
 	"Gateway_V2BlockOutline":         "kinds vector / transaction partition",
 	"Rhp2_rpcResponse":               "error flag selects error or payload",
 	"Rhp2_loopKeyExchangeRequest":    "constant specifier written, any specifier accepted",
@@ -202,6 +200,9 @@ type schCtx struct {
 	// fields the decoder sets from an expression that does not read the stream
 	// (FileContractRevision payout sentinel, legacy instruction defaults)
 	consts *[]string
+	// inside a dependent loop: the element is named by elemIdent (range value
+	// variable) or by elemPath[elemKey]
+	elemIdent, elemPath, elemKey string
 }
 
 // schMentions reports whether identifier name occurs in e.
@@ -251,8 +252,21 @@ func (c *schCtx) path(e ast.Expr) (string, bool) {
 	e = schUnparen(e)
 	switch x := e.(type) {
 	case *ast.Ident:
-		if x.Name == c.recv {
+		if x.Name == c.recv && c.elemPath == "" && c.elemIdent == "" {
 			return "", true
+		}
+		if c.elemIdent != "" && x.Name == c.elemIdent {
+			return "", true
+		}
+		if x.Name == c.recv {
+			return "\x00recv", true
+		}
+		return "", false
+	case *ast.IndexExpr:
+		if id, ok := x.Index.(*ast.Ident); ok && c.elemKey != "" && id.Name == c.elemKey {
+			if p, ok := c.path(x.X); ok && p == "\x00recv."+c.elemPath {
+				return "", true
+			}
 		}
 		return "", false
 	case *ast.SelectorExpr:
@@ -615,10 +629,91 @@ func (c *schCtx) stmt(st ast.Stmt) schField {
 			c.fail(st, "field assigned from something that is not a d.ReadX() call")
 		}
 		return schField{label: p, expr: a}
+	case *ast.RangeStmt:
+		return c.depLoop(s)
 	}
 	c.fail(st, "unrecognised statement (%T)", st)
 	return schField{}
 }
+
+// depLoop: an array field of which only a receiver-dependent part is transmitted:
+//
+//	for _, v := range x.F[:x.m()] { <encode v> }      for i := range x.F[:x.m()] { x.F[i] = <read> }
+//	for i, v := range x.F { if x.m(i) { <encode v> } }  for i := range x.F { if x.m(i) { <decode x.F[i]> } }
+//
+// becomes one field F with schema `.ext "dep<which part> <element schema>"`: the
+// element count depends on other fields, which the schema language cannot say; the
+// field's position and element form are still tied.
+func (c *schCtx) depLoop(rs *ast.RangeStmt) schField {
+	if c.elemPath != "" || c.elemIdent != "" {
+		c.fail(rs, "nested loop")
+	}
+	strip := func(n ast.Node) string {
+		var pb strings.Builder
+		printer.Fprint(&pb, c.g.L.fset, n)
+		return strings.ReplaceAll(pb.String(), c.recv+".", "")
+	}
+	x := unparenX(rs.X)
+	which := ""
+	if se, ok := x.(*ast.SliceExpr); ok {
+		if se.Low != nil || se.High == nil || se.Max != nil {
+			c.fail(rs, "unrecognised loop range")
+		}
+		which = "[:" + strip(se.High) + "]"
+		x = se.X
+	}
+	p, ok := c.path(x)
+	if !ok || p == "" || strings.Contains(p, ".") {
+		c.fail(rs, "loop over something that is not a field of the receiver")
+	}
+	body := rs.Body.List
+	key, val := "", ""
+	if id, ok := rs.Key.(*ast.Ident); ok && id.Name != "_" {
+		key = id.Name
+	}
+	if rs.Value != nil {
+		if id, ok := rs.Value.(*ast.Ident); ok && id.Name != "_" {
+			val = id.Name
+		}
+	}
+	if which == "" {
+		if len(body) != 1 {
+			c.fail(rs, "unrecognised loop body")
+		}
+		is, ok := body[0].(*ast.IfStmt)
+		if !ok || is.Init != nil || is.Else != nil {
+			c.fail(rs, "unrecognised loop body")
+		}
+		which = "[" + strip(is.Cond) + "]"
+		body = is.Body.List
+	}
+	if len(body) != 1 {
+		c.fail(rs, "unrecognised loop body")
+	}
+	sub := &schCtx{g: c.g, enc: c.enc, recv: c.recv, ed: c.ed, elemIdent: val, elemPath: p, elemKey: key}
+	var f schField
+	if as, ok := body[0].(*ast.AssignStmt); ok && !c.enc {
+		// x.F[i] = d.ReadX()
+		if as.Tok != token.ASSIGN || len(as.Lhs) != 1 || len(as.Rhs) != 1 {
+			c.fail(rs, "unrecognised loop body")
+		}
+		lp, ok := sub.path(as.Lhs[0])
+		a, ok2 := sub.readCall(as.Rhs[0])
+		if !ok || lp != "" || !ok2 {
+			c.fail(rs, "unrecognised loop body")
+		}
+		f = schField{expr: a}
+	} else {
+		f = sub.stmt(body[0])
+		if f.label != "" {
+			c.fail(rs, "loop body does not encode the element")
+		}
+	}
+	elem := strings.NewReplacer("encSchema_", "", "decSchema_", "").Replace(strings.Trim(f.expr, "()"))
+	return schField{label: p, expr: fmt.Sprintf("(.ext %q)", "dep"+which+" "+elem), deps: nil}
+}
+
+func unparenX(e ast.Expr) ast.Expr { return schUnparen(e) }
 
 func (c *schCtx) call(call *ast.CallExpr) schField {
 	// ---- e.WriteX(arg) / d.Read(x.F[:])
@@ -1191,9 +1286,261 @@ func genSchema(L *loader) (string, any, []string) {
 		sb.WriteString(fmt.Sprintf("  (%q, %q)%s\n", fn, cond, sep))
 	}
 	sb.WriteString("]\n")
+	// ---- constants of irregular codecs: the resolution type tags
+	encTags, err1 := g.resolutionTags(true)
+	decTags, err2 := g.resolutionTags(false)
+	for _, e := range []string{err1, err2} {
+		if e != "" {
+			g.errs = append(g.errs, "schema Types_V2FileContractResolution tags: "+e)
+		}
+	}
+	sb.WriteString("\n/-- V2FileContractResolution.EncodeTo: payload type -> tag byte -/\ndef resolutionTagsEnc : List (String × Nat) := " + encTags + "\n")
+	sb.WriteString("/-- V2FileContractResolution.DecodeFrom: payload type -> tag byte -/\ndef resolutionTagsDec : List (String × Nat) := " + decTags + "\n")
+	// ---- V2Transaction: version byte, presence bitmap, fields
+	for _, side := range []bool{true, false} {
+		src, err := g.v2TxnFacts(side)
+		if err != "" {
+			g.errs = append(g.errs, "schema Types_V2Transaction bitmap: "+err)
+		}
+		sb.WriteString(src)
+	}
 	sb.WriteString("\nend Sia.Codec.Gen\n")
 	report := map[string]any{"units": rep, "regular": len(both), "irregular": len(irregular), "enc_only": len(encOnly)}
 	return sb.String(), report, g.errs
+}
+
+// resolutionTags reads the type switch of V2FileContractResolution.EncodeTo
+// (`case *T: e.WriteUint8(n)`) or the tag switch of DecodeFrom
+// (`case n: res.Resolution = new(T)`); the method must otherwise be
+// `res.Parent.<codec>; switch; res.Resolution.(..).<codec>`.
+func (g *schGen) resolutionTags(enc bool) (string, string) {
+	name := "DecodeFrom"
+	if enc {
+		name = "EncodeTo"
+	}
+	fd := g.L.funcs[coreMod+"/types.V2FileContractResolution."+name]
+	if fd == nil || fd.Body == nil || len(fd.Body.List) != 3 {
+		return "[]", name + " does not have the shape parent; switch; payload"
+	}
+	var pairs []string
+	lit := func(e ast.Expr) (string, bool) {
+		bl, ok := e.(*ast.BasicLit)
+		if !ok || bl.Kind != token.INT {
+			return "", false
+		}
+		return bl.Value, true
+	}
+	typeName := func(e ast.Expr) (string, bool) {
+		if st, ok := e.(*ast.StarExpr); ok {
+			e = st.X
+		}
+		id, ok := e.(*ast.Ident)
+		if !ok {
+			return "", false
+		}
+		return id.Name, true
+	}
+	if enc {
+		ts, ok := fd.Body.List[1].(*ast.TypeSwitchStmt)
+		if !ok {
+			return "[]", "no type switch"
+		}
+		for _, cc := range ts.Body.List {
+			c := cc.(*ast.CaseClause)
+			if c.List == nil { // default: panic
+				continue
+			}
+			if len(c.List) != 1 || len(c.Body) != 1 {
+				return "[]", "unrecognised case"
+			}
+			tn, ok := typeName(c.List[0])
+			es, ok2 := c.Body[0].(*ast.ExprStmt)
+			if !ok || !ok2 {
+				return "[]", "unrecognised case"
+			}
+			call, ok := es.X.(*ast.CallExpr)
+			if !ok || len(call.Args) != 1 {
+				return "[]", "unrecognised case"
+			}
+			se, ok := call.Fun.(*ast.SelectorExpr)
+			v, ok2 := lit(call.Args[0])
+			if !ok || !ok2 || se.Sel.Name != "WriteUint8" {
+				return "[]", "unrecognised case"
+			}
+			pairs = append(pairs, fmt.Sprintf("(%q, %s)", tn, v))
+		}
+	} else {
+		ss, ok := fd.Body.List[1].(*ast.SwitchStmt)
+		if !ok {
+			return "[]", "no tag switch"
+		}
+		for _, cc := range ss.Body.List {
+			c := cc.(*ast.CaseClause)
+			if c.List == nil { // default: SetErr
+				continue
+			}
+			if len(c.List) != 1 || len(c.Body) != 1 {
+				return "[]", "unrecognised case"
+			}
+			v, ok := lit(c.List[0])
+			as, ok2 := c.Body[0].(*ast.AssignStmt)
+			if !ok || !ok2 || len(as.Rhs) != 1 {
+				return "[]", "unrecognised case"
+			}
+			call, ok := as.Rhs[0].(*ast.CallExpr)
+			if !ok || len(call.Args) != 1 {
+				return "[]", "unrecognised case"
+			}
+			if id, ok := call.Fun.(*ast.Ident); !ok || id.Name != "new" {
+				return "[]", "unrecognised case"
+			}
+			tn, ok := typeName(call.Args[0])
+			if !ok {
+				return "[]", "unrecognised case"
+			}
+			pairs = append(pairs, fmt.Sprintf("(%q, %s)", tn, v))
+		}
+	}
+	return "[" + strings.Join(pairs, ", ") + "]", ""
+}
+
+// v2TxnFacts reads V2Transaction.EncodeTo / DecodeFrom: the version constant, the
+// emptiness test of every bitmap position (encoder) and, per `if fields&(1<<i) != 0`
+// block, the bit index, the field and its (regular) schema.
+func (g *schGen) v2TxnFacts(enc bool) (string, string) {
+	name, pre := "DecodeFrom", "Dec"
+	if enc {
+		name, pre = "EncodeTo", "Enc"
+	}
+	empty := fmt.Sprintf("def v2TxnVersion%s : Nat := 0\ndef v2TxnFields%s : List (Nat × String × ZeroKind × Sch) := []\n", pre, pre)
+	fd := g.L.funcs[coreMod+"/types.V2Transaction."+name]
+	if fd == nil || fd.Body == nil {
+		return empty, name + " not found"
+	}
+	c := &schCtx{g: g, enc: enc, recv: schRecvName(fd), ed: schParamName(fd.Type, 0)}
+	var consts []string
+	c.consts = &consts
+	version := ""
+	kinds := map[string]string{}
+	var order []string
+	type fld struct {
+		bit string
+		f   schField
+	}
+	var flds []fld
+	var perr string
+	func() {
+		defer func() {
+			if r := recover(); r != nil {
+				if pe, ok := r.(schParseErr); ok {
+					perr = pe.msg
+					return
+				}
+				panic(r)
+			}
+		}()
+		for _, st := range fd.Body.List {
+			switch s := st.(type) {
+			case *ast.DeclStmt: // const version = 2 ; var fields uint64
+				gd := s.Decl.(*ast.GenDecl)
+				if gd.Tok == token.CONST {
+					vs := gd.Specs[0].(*ast.ValueSpec)
+					if len(vs.Values) == 1 {
+						if bl, ok := vs.Values[0].(*ast.BasicLit); ok {
+							version = bl.Value
+						}
+					}
+				}
+			case *ast.RangeStmt: // for i, b := range [...]bool{...}
+				cl, ok := schUnparen(s.X).(*ast.CompositeLit)
+				if !ok {
+					c.fail(s, "unrecognised loop")
+				}
+				for _, el := range cl.Elts {
+					el = schUnparen(el)
+					kind, target := "", ast.Expr(nil)
+					if be, ok := el.(*ast.BinaryExpr); ok && be.Op == token.NEQ {
+						if call, ok := be.X.(*ast.CallExpr); ok {
+							if id, ok := call.Fun.(*ast.Ident); ok && id.Name == "len" && len(call.Args) == 1 {
+								kind, target = ".len", call.Args[0]
+							}
+						} else if id, ok := be.Y.(*ast.Ident); ok && id.Name == "nil" {
+							kind, target = ".never", be.X
+						}
+					} else if ue, ok := el.(*ast.UnaryExpr); ok && ue.Op == token.NOT {
+						if call, ok := ue.X.(*ast.CallExpr); ok && len(call.Args) == 0 {
+							if se, ok := call.Fun.(*ast.SelectorExpr); ok && se.Sel.Name == "IsZero" {
+								kind, target = ".zero", se.X
+							}
+						}
+					}
+					p, ok := "", false
+					if target != nil {
+						p, ok = c.path(target)
+					}
+					if kind == "" || !ok {
+						c.fail(el, "unrecognised emptiness test")
+					}
+					kinds[p] = kind
+					order = append(order, p)
+				}
+			case *ast.IfStmt:
+				if s.Init != nil { // if version := d.ReadUint8(); version != 2 {...}
+					if be, ok := s.Cond.(*ast.BinaryExpr); ok && be.Op == token.NEQ {
+						if bl, ok := be.Y.(*ast.BasicLit); ok {
+							version = bl.Value
+						}
+					}
+					continue
+				}
+				// fields&(1<<i) != 0
+				var pb strings.Builder
+				printer.Fprint(&pb, g.L.fset, s.Cond)
+				cond := pb.String()
+				if !strings.HasPrefix(cond, "fields&(1<<") || !strings.HasSuffix(cond, ") != 0") {
+					c.fail(s, "unrecognised condition %s", cond)
+				}
+				bit := strings.TrimSuffix(strings.TrimPrefix(cond, "fields&(1<<"), ") != 0")
+				fs := c.stmts(s.Body.List)
+				if len(fs) != 1 || s.Else != nil {
+					c.fail(s, "a bitmap block must hold exactly one field")
+				}
+				flds = append(flds, fld{bit, fs[0]})
+			case *ast.ExprStmt, *ast.AssignStmt:
+				// e.WriteUint8(version), e.WriteUint64(fields), fields := d.ReadUint64()
+			default:
+				c.fail(st, "unrecognised statement (%T)", st)
+			}
+		}
+	}()
+	if perr != "" {
+		return empty, perr
+	}
+	if version == "" {
+		return empty, "no version constant"
+	}
+	var sb strings.Builder
+	sb.WriteString(fmt.Sprintf("\n/-- V2Transaction.%s: version byte -/\ndef v2TxnVersion%s : Nat := %s\n", name, pre, version))
+	sb.WriteString(fmt.Sprintf("/-- V2Transaction.%s: (bit, field, emptiness test, schema) per bitmap block -/\ndef v2TxnFields%s : List (Nat × String × ZeroKind × Sch) := [\n", name, pre))
+	for i, f := range flds {
+		k := ".len"
+		if enc {
+			if i >= len(order) || order[i] != f.f.label {
+				return empty, "the emptiness tests and the bitmap blocks are not in the same order"
+			}
+			k = kinds[f.f.label]
+		}
+		sep := ","
+		if i == len(flds)-1 {
+			sep = ""
+		}
+		sb.WriteString(fmt.Sprintf("  (%s, %q, %s, %s)%s\n", f.bit, f.f.label, k, f.f.expr, sep))
+	}
+	sb.WriteString("]\n")
+	if enc && len(order) != len(flds) {
+		return empty, "the number of emptiness tests differs from the number of bitmap blocks"
+	}
+	return sb.String(), ""
 }
 
 // prefixGuard: the helper must start with `n := d.ReadUint64()` followed by
